@@ -515,6 +515,23 @@ fn main() {
 }
 """)
 
+prog("value_arrays_dynamic_index", """
+const T = array<i32, 4>(11, 22, 33, 44);
+struct S { rows: array<array<u32, 2>, 3>, k: vec2<u32> }
+@group(0) @binding(0) var<storage, read_write> s: S;
+@group(0) @binding(1) var<storage, read_write> o: array<i32, 8>;
+fn pick(a: array<i32, 4>, i: u32) -> i32 { return a[i]; }
+@compute @workgroup_size(1)
+fn main() {
+  let i = s.k.x & 3u; let j = s.k.y & 1u;
+  let rows = s.rows;                 // by-value copy of a nested array
+  let row = rows[i % 3u];
+  o[0] = T[i]; o[1] = pick(T, 3u - i); o[2] = i32(row[j]); o[3] = i32(rows[(i + 1u) % 3u][1u - j]);
+  let local = array<vec2<i32>, 2>(vec2<i32>(1, 2), vec2<i32>(3, 4));
+  o[4] = local[j].y; o[5] = local[1u - j][j];
+}
+""")
+
 prog("runtime_array_pointer_param", """
 @group(0) @binding(0) var<storage, read_write> data: array<u32>;
 @group(0) @binding(1) var<storage, read_write> o: array<u32, 4>;
